@@ -988,14 +988,14 @@ def run(ctx):
     check_field_headers(ctx, r, ctx.n(60, 600))
     check_schema_resolve(ctx, r, ctx.n(40, 600))
     # ---- T3
-    for a in range(ctx.n(5, 220)):
+    for a in range(ctx.n(5, 290)):
         specs = [gen_spec(r, i) for i in range(8)]
         specs[0] = gen_spec(r, 0, "explicit")
         specs[1] = gen_spec(r, 1, "implicit")
         run_api(ctx, r, specs, f"api{a}", ncalls=ctx.n(4, 5))
         ctx.count("stream", "generated-api")
     # ---- the alternative ("ads") templates carry their own copy of create_metadata: sync gRPC only
-    for a in range(ctx.n(1, 30)):
+    for a in range(ctx.n(1, 40)):
         specs = [gen_spec(r, i) for i in range(8)]
         run_api(ctx, r, specs, f"ads{a}", ncalls=ctx.n(3, 4), templates="ads")
         ctx.count("stream", "generated-api-ads")
